@@ -151,7 +151,10 @@ class Repository(object):
 
     def push(self, name):
         try:
-            self.cmd('git push --set-upstream origin ' + name)
+            # --atomic: integration (or queue) branches pushed together are
+            # built on each other; if the remote refuses one of them, the
+            # others must not be published without it.
+            self.cmd('git push --atomic --set-upstream origin ' + name)
         except CommandError as err:
             raise PushFailedException(name) from err
 
